@@ -21,6 +21,22 @@ CHECKS = {
               "large triples are sampled."),
         technique="TLA+ model checked with TLC + trace validation of the real WindowGenerator against the spec",
     ),
+    "C06": dict(
+        category="model_checking",
+        text=("TLC explores every interleaving of 1..8 worker processes of spec/sys/DestripeFile.tla (start batch, seek, "
+              "per-batch kept range, rms row, padding, append offset) over boxes of (length, batch size, workers) and checks that "
+              "each output position only ever receives its canonical batch, final length, rms rows, pad. The real "
+              "decompress_destripe_cbin then runs (loky workers, guarded hooks) on real-magnitude tuples that TLC classified by "
+              "seam position / hazard; TLC explores ALL interleavings of each run's recorded per-worker writes and judges every "
+              "terminal state with the same property layer plus projections of the real output (sync column bit-exact = sample "
+              "counter, file length, rms rows, saturation entries, data within 1 LSB of batch-wise in-memory destriping); output "
+              "bytes are compared across worker counts."),
+        design_ref="DESIGN.md §4 C06",
+        note=("Trusted: TLC; the hooks in voltage.my_function (values read from live objects); /verif/vendor/pyfftw stand-in "
+              "(scipy.fft) replacing the absent pyfftw; batch function deterministic. Exhaustive interleavings only inside the "
+              "boxes (T=2 abstract taper) and for the recorded runs; the 1-LSB comparison is a numeric projection."),
+        technique="TLA+ model of the worker/batch/file protocol checked with TLC + all-interleavings trace validation of hook-recorded real runs",
+    ),
 }
 
 NOT_YET = {}
